@@ -115,8 +115,31 @@ CLAIMED = {
         "quaternion<->matrix round trips through Eigen's real conversion code.",
    note=TB + "; Euler-angle round trip only differentially validated; series-path differences between two correct Taylor truncations are reported undecided unless reproduced natively.",
    ref="DESIGN 4/C17", technique="symbolic execution of LLVM IR + SMT (atan2 axioms, identity obligations), native replay"),
+ "C08": dict(
+   text="Bounded symbolic check: diff::dr<0|1|2> executed symbolically on callable FAMILIES with symbolic coefficients (affine R^2 x R x R^n(dynamic) -> R^2; quadratic with "
+        "K=2; SO3 x R^3 action) and on a callable whose value/jacobian are uninterpreted functions; z3 decides J == [A b C] exactly (forward differences are exact on affine "
+        "maps, which pins column placement and static/dynamic bookkeeping), the Hessian layout on quadratics exactly, index-subset columns, K=0, Analytic/Default pass-through "
+        "verbatim, restoration of every referenced argument, and the SO3 case within 1e-4 by an LRA relaxation.",
+   note=TB + "; vector coordinates symbolic inside one unit interval per run (the step scaling uses the integer abs(), see DESIGN findings); zero coordinates and mixed signs by "
+        "differential validation; bit-precise restore kernel not encoded.",
+   ref="DESIGN 4/C08", technique="symbolic execution of LLVM IR + SMT (identity / LRA-relaxed bounds), uninterpreted functions"),
+ "C09": dict(
+   text="Bounded symbolic check with the residual and its Jacobian as UNINTERPRETED functions (so every residual function is covered): the real minimize<Analytic> loop is executed "
+        "symbolically for max_iter in {0,1} (2 thorough), both trust-region strategies; on every path z3 decides that the costs handed to the callback are non-increasing, the "
+        "argument finally holds the last iterate, iter <= max_iter, MaxIters is reported only at the bound and callbacks <= iter+1.",
+   note=TB + "; scalar residual with one unknown; convergence to the minimiser within 1e-3 and multi-dimensional residuals are not claimed; rounding of f outside.",
+   ref="DESIGN 4/C09", technique="symbolic execution of LLVM IR with uninterpreted residual (congruence axioms) + SMT"),
+ "C10": dict(
+   text="Bounded symbolic check: solve_linear_ldlt (static, dynamic and SparseMatrix/SimplicialLDLT storage), solve_trust_region and colwise_norm executed symbolically with "
+        "fully symbolic J, d, r, lambda (every LDLT pivot order is a path); z3 decides the normal equations (J^T J + lambda D^2) dx + J^T r = 0, the descent certificate "
+        "|r|^2-|J dx+r|^2 = |J dx|^2 + 2 lambda |D dx|^2 (hence |J dx + r| <= |r|), dphi through the symbolic lambda-derivative of the path's own dx, lambda = 1/Delta.",
+   note=TB + "; sizes 2x1 (all storages), 3x1 sparse quick; 2x2, 3x2, 3x3 thorough; d >= 1e-6, lambda/Delta in [1e-6,1e6]; the 1e-8 backward error, cond<=1e8 agreement and sizes "
+        "up to 40x40 are floating-point statements outside the claim.",
+   ref="DESIGN 4/C10", technique="symbolic execution of LLVM IR (Eigen LDLT incl. pivoting) + SMT"),
 }
-NA = {}
+NA = {"C14": "curve construction is not encoded: fit_spline(_1d)/fit_bspline solve sparse systems (SparseLU, SimplicialLDLT on a KKT matrix) whose symbolic execution is beyond reach "
+             "(symx diverges from the native run inside Eigen::SparseLU; root cause not found in the time available; MinDerivative's KKT solution exceeds the normal-form budget and its "
+             "reported defect is a floating-point conditioning failure invisible to layer R anyway), dubins_curve and reparameterize_spline (2-D LP) were not reached; see DESIGN 9"}
 checks = []
 for p in props:
     pid = p["id"]
